@@ -395,4 +395,164 @@ def Stmt.span : Stmt → Span
   | .includeStmt s .. | .exprStmt s .. | .versionString s | .pragmaStatement s ..
   | .annotationStatement s .. | .aliasDeclarationStatement s .. | .notImpl _ s => s
 
+
+/-! ### size (number of nodes), for the default fuel of the semantic model
+
+Structural recursion through the nested `Option`/`List`/`Acc` occurrences needs one auxiliary
+function per nested type; all of them are in the two mutual blocks below. -/
+
+mutual
+def Expr.size : Expr → Nat
+  | .prefixExpr _ _ e => 1 + optExprSize e
+  | .parenExpr p => 1 + p.size
+  | .binExpr _ _ l r => 1 + optExprSize l + optExprSize r
+  | .literal _ => 1
+  | .timingLiteral .. => 2
+  | .identifier _ => 1
+  | .hardwareQubit _ => 1
+  | .rangeExpr r => 1 + r.size
+  | .indexExpr _ e i => 1 + optExprSize e + optIndexOperatorSize i
+  | .indexedIdentifier i => 1 + i.size
+  | .measureExpression _ g => 1 + optGateOperandSize g
+  | .returnExpr _ e => 1 + optExprSize e
+  | .castExpression _ s e => 1 + optScalarTypeSize s + optExprSize e
+  | .callExpr _ a _ => 2 + optArgListSize a
+  | .gateCallExpr g => 1 + g.size
+  | .gPhaseCallExpr g => 1 + g.size
+  | .modifiedGateCallExpr _ ms g p => 1 + modifiersSize ms + optGateCallExprSize g + optGPhaseCallExprSize p
+  | .unsupported .. => 1
+def ParenExpr.size : ParenExpr → Nat
+  | .mk _ e => 1 + optExprSize e
+def RangeExpr.size : RangeExpr → Nat
+  | .mk _ a b c => 1 + optExprSize a + optExprSize b + optExprSize c
+def Designator.size : Designator → Nat
+  | .mk _ e => 1 + optExprSize e
+def ScalarType.size : ScalarType → Nat
+  | .mk _ _ d s => 1 + optDesignatorSize d + optScalarTypeSize s
+def ExpressionList.size : ExpressionList → Nat
+  | .mk _ es => 1 + exprsSize es
+def SetExpression.size : SetExpression → Nat
+  | .mk _ el => 1 + optExpressionListSize el
+def IndexKind.size : IndexKind → Nat
+  | .setExpression s => 1 + s.size
+  | .expressionList e => 1 + e.size
+def IndexOperator.size : IndexOperator → Nat
+  | .mk _ k => 1 + optIndexKindSize k
+def IndexedIdentifier.size : IndexedIdentifier → Nat
+  | .mk _ _ ixs => 2 + indexOperatorsSize ixs
+def GateOperand.size : GateOperand → Nat
+  | .hardwareQubit _ => 1
+  | .identifier _ => 1
+  | .indexedIdentifier i => 1 + i.size
+def QubitList.size : QubitList → Nat
+  | .mk _ gs => 1 + gateOperandsSize gs
+def ArgList.size : ArgList → Nat
+  | .mk _ el => 1 + optExpressionListSize el
+def GateCallExpr.size : GateCallExpr → Nat
+  | .mk _ q a _ => 2 + optQubitListSize q + optArgListSize a
+def GPhaseCallExpr.size : GPhaseCallExpr → Nat
+  | .mk _ e => 1 + optExprSize e
+def Modifier.size : Modifier → Nat
+  | .invModifier _ => 1
+  | .powModifier _ p | .ctrlModifier _ p | .negCtrlModifier _ p => 1 + optParenExprSize p
+def optExprSize : Option Expr → Nat
+  | none => 0 | some e => e.size
+def exprsSize : List Expr → Nat
+  | [] => 0 | e :: es => 1 + e.size + exprsSize es
+def optParenExprSize : Option ParenExpr → Nat
+  | none => 0 | some e => e.size
+def optDesignatorSize : Option Designator → Nat
+  | none => 0 | some e => e.size
+def optScalarTypeSize : Option ScalarType → Nat
+  | none => 0 | some e => e.size
+def optExpressionListSize : Option ExpressionList → Nat
+  | none => 0 | some e => e.size
+def optIndexKindSize : Option IndexKind → Nat
+  | none => 0 | some e => e.size
+def optIndexOperatorSize : Option IndexOperator → Nat
+  | none => 0 | some e => e.size
+def indexOperatorsSize : List IndexOperator → Nat
+  | [] => 0 | e :: es => 1 + e.size + indexOperatorsSize es
+def optGateOperandSize : Option GateOperand → Nat
+  | none => 0 | some e => e.size
+def gateOperandsSize : List GateOperand → Nat
+  | [] => 0 | e :: es => 1 + e.size + gateOperandsSize es
+def optQubitListSize : Option QubitList → Nat
+  | none => 0 | some e => e.size
+def optArgListSize : Option ArgList → Nat
+  | none => 0 | some e => e.size
+def optGateCallExprSize : Option GateCallExpr → Nat
+  | none => 0 | some e => e.size
+def optGPhaseCallExprSize : Option GPhaseCallExpr → Nat
+  | none => 0 | some e => e.size
+def modifiersSize : List Modifier → Nat
+  | [] => 0 | e :: es => 1 + e.size + modifiersSize es
+end
+
+def ParamType.size : ParamType → Nat
+  | .scalarType s => 1 + s.size
+  | .arrayRefType _ => 1
+
+def TypedParam.size (p : TypedParam) : Nat :=
+  2 + (match p.paramType with | some t => t.size | none => 0)
+
+def typedParamsSize : List TypedParam → Nat
+  | [] => 0 | p :: ps => 1 + p.size + typedParamsSize ps
+
+def ForIterable.size (f : ForIterable) : Nat :=
+  1 + (match f.setExpression with | some s => s.size | none => 0)
+    + (match f.rangeExpr with | some s => s.size | none => 0)
+    + optExprSize f.forIterableExpr
+
+mutual
+def Stmt.size : Stmt → Nat
+  | .ifStmt _ c t f => 1 + optExprSize c + accBosSize t + optBosSize f
+  | .whileStmt _ c b => 1 + optExprSize c + accBosSize b
+  | .forStmt _ _ st it b =>
+    2 + optScalarTypeSize st + (match it with | some i => i.size | none => 0) + accBosSize b
+  | .switchCaseStmt _ c cs d => 1 + optExprSize c + casesSize cs + optBlockSize d
+  | .classicalDeclarationStatement _ _ st _ _ e => 2 + optScalarTypeSize st + optExprSize e
+  | .ioDeclarationStatement _ _ st _ _ => 2 + optScalarTypeSize st
+  | .quantumDeclarationStatement _ _ _ qt =>
+    3 + (match qt with | some q => optDesignatorSize q.designator | none => 0)
+  | .assignmentStmt _ _ rhs ii =>
+    2 + optExprSize rhs + (match ii with | some i => i.size | none => 0)
+  | .breakStmt _ | .continueStmt _ | .endStmt _ => 1
+  | .gate _ _ a q b =>
+    2 + (match a with | some l => l.params.length | none => 0)
+      + (match q with | some l => l.params.length | none => 0) + optBlockSize b
+  | .defStmt _ _ tp b rs =>
+    2 + (match tp with | some l => typedParamsSize l.typedParams | none => 0) + optBlockSize b
+      + (match rs with | some r => 1 + optScalarTypeSize r.scalarType | none => 0)
+  | .barrier _ q => 1 + optQubitListSize q
+  | .delayStmt _ q d => 1 + optQubitListSize q + optDesignatorSize d
+  | .reset _ g => 1 + optGateOperandSize g
+  | .includeStmt .. => 2
+  | .exprStmt _ e => 1 + optExprSize e
+  | .versionString _ => 1
+  | .pragmaStatement .. => 1
+  | .annotationStatement .. => 1
+  | .aliasDeclarationStatement _ _ e => 2 + optExprSize e
+  | .notImpl .. => 1
+def BlockExpr.size : BlockExpr → Nat
+  | .mk _ ss => 1 + stmtsSize ss
+def BlockOrStmt.size : BlockOrStmt → Nat
+  | .blockExpr b => 1 + b.size
+  | .stmt s => 1 + s.size
+def CaseExpr.size : CaseExpr → Nat
+  | .mk _ el b => 1 + optExpressionListSize el + optBlockSize b
+def stmtsSize : List Stmt → Nat
+  | [] => 0 | s :: ss => 1 + s.size + stmtsSize ss
+def casesSize : List CaseExpr → Nat
+  | [] => 0 | s :: ss => 1 + s.size + casesSize ss
+def optBlockSize : Option BlockExpr → Nat
+  | none => 0 | some b => b.size
+def optBosSize : Option BlockOrStmt → Nat
+  | none => 0 | some b => b.size
+def accBosSize : Acc BlockOrStmt → Nat
+  | .panicked => 0 | .ok b => b.size
+end
+
+def Program.size (p : Program) : Nat := 1 + stmtsSize p.statements
+
 end Oq3.Ast
